@@ -130,6 +130,53 @@ PROPS["C17"] = {
     "release_too": False,
 }
 
+PROPS["C04"] = {
+    "level": "proof",
+    "technique": "Lean 4: NTRUSolve tower (Bezout base case, lifting step, Babai step) preserves the NTRU equation in any commutative ring; public-key relation from the C11 development; per-key exact re-check (model and independent harness oracle); guard constants re-extracted",
+    "rule": "ops = keygen from seeds (2+1 per variant quick, 48 thorough) through the public API, judged by an exact big-integer oracle (f*G-g*F = q over Z, h*f = g mod q, f invertible, all tree leaves in [sigma_min, sigma_max]); for each key a traced op whose exact checks are recomputed by the Lean model (NTRU equation over Z, ntt h . ntt f = ntt g, ntt f nowhere zero); distinct by op line",
+    "exhaustive": {"quick": (False, ""), "thorough": (False, "")},
+    "level_text": "Machine-checked algebra (any commutative ring, so all degrees and inputs): Bezout base case, the lifting step F = F'(x^2) g(-x), G = G'(x^2) f(-x) and every Babai step produce/preserve solutions of f*G - g*F = q; ntt h . ntt f = ntt g implies h*f = g in Z_q[X]/(X^n+1). Every generated key is re-checked exactly (over Z) by the model and the harness. NOT proved: losslessness of the i32/i16 narrowing steps for every seed and the leaf range (two NTRU-lattice Gram-Schmidt facts outside this formalisation); leaves are range-checked numerically per key. A seed-dependent defect behind a guard (e.g. an invertibility test that skips one slot) is only found if a sampled seed hits it; the translator pins the guard's textual shape and constants instead.",
+    "level_note": "Trusted: Lean kernel + Mathlib; translator (guard shapes/constants in ntru_gen); floating-point parts of keygen (Gram-Schmidt norm, Babai quotients, LDL tree) are not modelled: their integer consequences are checked per key.",
+    "trusted_base": TB_COMMON + ["floating-point parts of key generation are not modelled; num-bigint modelled by Lean Int"],
+    "assumptions": ["sampled seeds; keygen defects that need a rare seed are covered only through the translator's pattern on the guards"],
+    "not_proved": ["leaf range for all seeds", "narrowing conversions lossless for all seeds", "field_norm/lift/galois_adjoint on lists implement N, iota, sigma"],
+    "release_too": False,
+    "parallel_model": True,
+    "run_timeout": {"quick": 900, "thorough": 3000},
+}
+
+PROPS["C05"] = {
+    "level": "proof",
+    "technique": "Lean 4: complete kernel enumeration of the secret-key field codec (all widths x all in-range values), keygen range guards (re-extracted) imply the format's range, signature round trip for all strings; whole-object round trips executed by the real code and by the model per generated key",
+    "rule": "ops = per variant: keygen + to_bytes/from_bytes round trip of sk, pk and a signature with sizes, the decoded key signs and the original pk verifies (seeds incl. those of finding F8); for each key a traced op in which the Lean model encodes (f,g,F), compares with the real bytes, decodes them and recomputes G; the generated pk through the format model; key objects built from boundary field values (+-(2^(w-1)-1), 0) through the real encoder/decoder; distinct by op line; all judged",
+    "exhaustive": {"quick": (False, "field codec enumerated completely in the theorem; keys sampled"), "thorough": (False, "")},
+    "level_text": "Machine-checked: every in-range value of every field width (5, 6, 8 bits) round-trips through the field codec and the reserved pattern is the only exception (complete enumeration); ntru_gen's guards (constants re-extracted from math.rs) put every accepted f, g, F, G inside that range for both variants; a signature re-decodes to itself; sizes 1281/897/666 and 2305/1793/1280. Whole-key round trips incl. the recomputed G are executed per generated key by the real code and reproduced by the model.",
+    "level_note": "Trusted: Lean kernel; translator; the composition 'all fields round-trip => whole key round-trips' (bit-chunk reassembly) is executed, not proved; G = g*F/f mod q equals the generated G because of the NTRU equation and |G| <= 127 (checked per key).",
+    "trusted_base": TB_COMMON,
+    "assumptions": [],
+    "not_proved": ["skFromBytes (skToBytes k) = k as a theorem over whole keys", "pkFromBytes (pkToBytes h) = h"],
+    "release_too": False,
+    "parallel_model": True,
+    "run_timeout": {"quick": 900, "thorough": 3000},
+}
+
+PROPS["C15"] = {
+    "level": "translation_validation",
+    "technique": "executable Lean model computes the first key-generation candidates from the seed (ChaCha12 + sampler) and is compared with the real ntru_gen; translator scan of every entropy/clock/global-state use (theorem: only SecretKey::generate and sign); byte comparison of keys across threads, processes and build profiles; sampled seed-bit sensitivity",
+    "rule": "programs = (seed, variant) pairs: keygen_digest (serialized key pair) recomputed in the same thread, a fresh thread, a fresh thread after interleaved keygen+sign, and in a second process built with a different profile; first_candidate computed by the Lean model from the seed and by the real code, with 24 (thorough: all 256) single-bit seed flips required to change it; distinct by op line",
+    "exhaustive": {"quick": (False, ""), "thorough": (False, "")},
+    "level_text": "Determinism is definitional in the model; the assurance is the validated tie: the model's seed->candidate computation equals the real one on every run, no entropy source is reachable from generate_from_seed (kernel-checked over the translator's scan), and keys are byte-identical across threads, processes and profiles. Seed sensitivity is sampled, not proved.",
+    "level_note": "Trusted: ChaCha12/StdRng transcription (validated per run), the translator's textual scan, the OS process boundary.",
+    "trusted_base": TB_COMMON + ["rand / rand_chacha StdRng = ChaCha12 transcription in Lean (validated against the crate through gen_poly on every run)"],
+    "assumptions": [],
+    "not_proved": ["seed sensitivity for all seeds (a statement about ChaCha12)"],
+    "release_too": True,
+    "release_filter": r"^keygen_digest ",
+    "cross_equal": r"^keygen_digest ",
+    "parallel_model": True,
+    "run_timeout": {"quick": 900, "thorough": 3000},
+}
+
 # properties not (yet) claimed, with the reason shown in MANIFEST.not_applicable
 NOT_YET = {k: "check not built yet in this session (planned in DESIGN.md §7/§8); not claimed until its check passes" for k in
-           ["C01", "C04", "C05", "C08", "C10", "C13", "C15", "C16"]}
+           ["C01", "C08", "C10", "C13", "C16"]}
